@@ -52,6 +52,11 @@ def dtest_runs(rep, b, ch, pairs, rng):
             sb, pb = with_offset(lb, tb, rng.choice(OFFS))
             A = cc.fmt_row("ymd", ch.row(la)) + "T" + ta + sa
             B = cc.fmt_row("ymd", ch.row(lb)) + "T" + tb + sb
+        elif ta and tb and rng.random() < 0.25:
+            # both operands as seconds since the epoch
+            kind, args = "epoch", []
+            A = "@%d" % ((la - 141427) * 86400 + sod(ta))
+            B = "@%d" % ((lb - 141427) * 86400 + sod(tb))
         jobs.append((kind, A, B, fl, args, pa, pb))
 
     def one(j):
